@@ -1,7 +1,7 @@
 //! Single-game protocols (C07): Mindustry, Savage 2, FFOW, The Ship, Battalion 1944, Eco.
 use crate::canon::*;
 use crate::net::*;
-use gamedig::games::{ffow, mindustry, savage2, theship};
+use gamedig::games::{battalion1944, ffow, mindustry, savage2, theship};
 
 pub fn entries() -> Vec<(&'static str, crate::EntryFn)> {
     vec![
@@ -13,6 +13,8 @@ pub fn entries() -> Vec<(&'static str, crate::EntryFn)> {
         ("ffow_dp", entry_ffow_dp),
         ("theship", entry_theship),
         ("theship_dp", entry_theship_dp),
+        ("battalion", entry_battalion),
+        ("battalion_dp", entry_battalion_dp),
     ]
 }
 
@@ -211,3 +213,53 @@ fn theship_with(args: &[&str], default_port: bool) -> String {
 
 fn entry_theship(args: &[&str]) -> String { theship_with(args, false) }
 fn entry_theship_dp(args: &[&str]) -> String { theship_with(args, true) }
+
+// ---------------------------------------------------------------- Battalion 1944
+
+fn show_game_player(p: &gamedig::protocols::valve::game::Player) -> String {
+    format!("({})", [show_str(&p.name), p.score.to_string(), p.duration.to_bits().to_string()].join(";"))
+}
+
+fn show_game_response(r: &gamedig::protocols::valve::game::Response) -> String {
+    format!(
+        "G{{{}}}",
+        [
+            r.protocol.to_string(),
+            show_str(&r.name),
+            show_str(&r.map),
+            show_str(&r.game),
+            r.appid.to_string(),
+            r.players_online.to_string(),
+            show_list(&r.players_details, show_game_player),
+            r.players_maximum.to_string(),
+            r.players_bots.to_string(),
+            crate::valve::show_server(&r.server_type),
+            show_bool(r.has_password),
+            show_bool(r.vac_secured),
+            show_str(&r.version),
+            show_opt(&r.port, |v| v.to_string()),
+            show_opt(&r.steam_id, |v| v.to_string()),
+            show_opt(&r.tv_port, |v| v.to_string()),
+            show_opt(&r.tv_name, |v| show_str(v)),
+            show_opt(&r.keywords, |v| show_str(v)),
+            crate::valve::show_map(&r.rules),
+        ]
+        .join(";")
+    )
+}
+
+fn battalion_with(args: &[&str], default_port: bool) -> String {
+    if args.len() < 3 {
+        return "bad-case".into();
+    }
+    let (Some(port), Some(_r), Some(script)) =
+        (args[0].parse::<u16>().ok(), args[1].parse::<usize>().ok(), parse_net_args(&args[2 ..]))
+    else {
+        return "bad-case".into();
+    };
+    let port = if default_port { None } else { Some(port) };
+    run_q(script, || battalion1944::query(&IP, port), show_game_response)
+}
+
+fn entry_battalion(args: &[&str]) -> String { battalion_with(args, false) }
+fn entry_battalion_dp(args: &[&str]) -> String { battalion_with(args, true) }
